@@ -107,6 +107,16 @@ NewMemStore(s) == /\ s \notin DOMAIN stores
                   /\ stores' = SetStore(s, StoreRec(FALSE, NoFile, 0, EmptyFn))
                   /\ UNCHANGED files
 
+\* MakePrivateCollection(compare): an unregistered collection attached to
+\* store s.  It is a sorted map like any other, but belongs to no name: it is
+\* not listed, not flushed, not part of snapshots or CopyTo, and Close() of the
+\* store does not touch it.  The model gives it a store record of its own
+\* (id p, one collection n, no file).
+MakePrivate(s, p, n) ==
+  /\ IsOpen(s) /\ p \notin DOMAIN stores
+  /\ stores' = SetStore(p, StoreRec(FALSE, NoFile, 0, n :> EmptyColl))
+  /\ UNCHANGED files
+
 \* NewStore(file): "ok" (state = newest durable state), or "noroots" when the
 \* file is not empty but holds no complete root record
 OpenResult(f) == IF files[f].len = 0 THEN "ok"
